@@ -56,7 +56,7 @@ Theorem tpm_chain_checked O P st adr cdj ad att :
     validate_chain O (rp_now P) x5c (anchors_in_force P (s2l "tpm")) = Ok tt.
 Proof.
   unfold verify_statement, anchors_in_force. fmt_eval. intros H. rewrite app_nil_r.
-  apply verify_tpm_sound in H. destruct H as [_ (x5c & pa_raw & ci_raw & pa & dk & ci & c & ph & A & B & _)]. eauto.
+  apply verify_tpm_sound in H. destruct H as [_ _ (x5c & pa_raw & ci_raw & pa & dk & ci & c & ph & A & B & _)]. eauto.
 Qed.
 
 Theorem u2f_chain_checked O P st adr cdj ad att :
@@ -65,7 +65,7 @@ Theorem u2f_chain_checked O P st adr cdj ad att :
     validate_chain O (rp_now P) [der] (anchors_in_force P (s2l "fido-u2f")) = Ok tt.
 Proof.
   unfold verify_statement, anchors_in_force. fmt_eval. intros H. rewrite app_nil_r.
-  apply verify_fido_u2f_sound in H. destruct H as [(der & c & A & B & _) _]. eauto.
+  apply verify_fido_u2f_sound in H. destruct H as [_ (der & c & A & B & _) _]. eauto.
 Qed.
 
 Theorem apple_chain_checked O P st adr cdj ad att :
@@ -74,7 +74,7 @@ Theorem apple_chain_checked O P st adr cdj ad att :
     validate_chain O (rp_now P) x5c (anchors_in_force P (s2l "apple")) = Ok tt.
 Proof.
   unfold verify_statement, anchors_in_force. fmt_eval. intros H.
-  apply verify_apple_sound in H. destruct H as [(x5c & c & v & dk & pk & A & B & _)]. eauto.
+  apply verify_apple_sound in H. destruct H as [_ (x5c & c & v & dk & pk & A & B & _)]. eauto.
 Qed.
 
 Theorem safetynet_chain_checked O P st adr cdj ad att :
@@ -83,7 +83,7 @@ Theorem safetynet_chain_checked O P st adr cdj ad att :
 Proof.
   unfold verify_statement, anchors_in_force. fmt_eval. intros H.
   apply verify_safetynet_sound in H.
-  destruct H as [(resp & p0 & p1 & p2 & hb & hj & pb & pj & x5c & c & sg & ts & cn & cns & H)].
+  destruct H as [_ (resp & p0 & p1 & p2 & hb & hj & pb & pj & x5c_txt & x5c & c & sg & ts & cn & cns & H)].
   decompose [and] H. eauto.
 Qed.
 
@@ -94,7 +94,7 @@ Theorem android_key_root_known O P st adr cdj ad att :
     In (c_pem rootc) (anchors_in_force P (s2l "android-key")).
 Proof.
   unfold verify_statement, anchors_in_force. fmt_eval. intros H.
-  apply verify_android_key_sound in H. destruct H as [(x5c & rootc & c & dk & pk & kd & A & B & C & D & _)]. eauto 10.
+  apply verify_android_key_sound in H. destruct H as [_ (x5c & rootc & c & dk & pk & kd & A & B & C & D & _)]. eauto 10.
 Qed.
 
 (* tie to the abstract path spec, under the stated hypothesis about OpenSSL *)
